@@ -13,7 +13,7 @@ META = {
     "HF<1, the close-factor cap, seized value == repaid value x (1+bonus of the collateral) at the collateral's own index, net-value "
     "loss == bonus x repaid value, untouched wallet and bystander positions, non-negativity, action records matching state deltas, "
     "termination without exception and each debt visited at most once.",
-    "bounds": ["portfolios of <= 2 collaterals x <= 2 debts plus a non-collateral supply (shapes in this file)", "scaled amounts in [1e-9,1e9], indices [1,4] (all distinct symbolic), prices [1e-3,1e5]"],
+    "bounds": ["portfolios of <= 2 collaterals x <= 2 debts plus a non-collateral supply (shapes in this file)", "scaled amounts in [1e-9,1e9], indices [1,4] (all distinct symbolic), prices [1e-3,1e5]", "one end-of-bar update from the symbolic portfolio; variant: the same market object has liquidated every debt token of the shape in an earlier (concrete) bar"],
     "outside": ["more than 2x2 tokens", "residues below the 1e-18 clamp of scaled balances"],
     "assumptions": ["Decimal modelled as exact reals", "pre-states installed as raw scaled balances"],
 }
